@@ -36,6 +36,8 @@ pub enum GameError {
     ///
     /// Make sure that all actions of a player node are unique.
     ActionsNotUnique,
+    /// Returned when a terminal node has a payoff that is infinite or not a number
+    NonFinitePayoff,
 }
 
 impl Display for GameError {
